@@ -1,6 +1,7 @@
 import ServiceModel.Proofs.Reachable
 import ServiceModel.Proofs.Eventually
 import ServiceModel.Proofs.Restart
+import ServiceModel.Proofs.MonitorSound2
 /-!
 # C11 — A running context is never stranded
 -/
@@ -110,5 +111,12 @@ theorem scheduling_invariants_across_restarts (hc : CfgOK cfg p) {s : State} (hr
   | some q =>
     obtain ⟨x, hx, hb, he⟩ := h.reqCtx r q hq
     exact ⟨q, x, rfl, hx, hb, he⟩
+
+/-- The executable monitor `queues` (`Inv/Monitors.lean`), which the check evaluates on every state decoded from the
+    implementation's trace, is implied by the invariants: on every chain — any operations, any number of restarts —
+    it reports nothing (it walks the raw lists of the state; that each map holds one record per key is
+    `keys1_reachableR`). An alarm of it on an implementation state therefore means a state the model cannot reach. -/
+theorem scheduling_monitor_implied (hc : CfgOK cfg p) {s : State} (hr : ReachableR cfg p h0 t0 s) :
+    Mon.queues s = [] := (scheduling_monitors_quiet_on_chains_with_restarts hc hr).1
 
 end SM.C11
